@@ -132,10 +132,14 @@ def corrupt_statement(text, v):
     if v == 11:
         i = text.rfind(",")
         return None if i < 0 else text[:i + 1] + " ," + text[i + 1:]  # empty item before the last one
+    if v == 12:
+        return text[:toks[0][1]] if len(toks) > 1 else None            # only the first token (the keyword) is left
+    if v == 13:
+        return text[:toks[1][1]] if len(toks) > 2 else None            # only the first two tokens are left
     return None
 
 
-NCORRUPT = 12
+NCORRUPT = 14
 
 
 def systematic_jobs(seed, std, nprog):
